@@ -14,8 +14,8 @@ HERE = os.path.dirname(os.path.dirname(os.path.abspath(__file__)))
 MUTANTS = [
     ("C01-ash-opcode", "C01", "architecture.py", '"ash"   : "072dss"', '"ash"   : "073dss"', 1),
     ("C01-reg-bits-reversed", "C01", "insns.py", 'operands.append(RegisterOperandStub("s", [2, 1, 0]))', 'operands.append(RegisterOperandStub("s", [0, 1, 2]))', 1),
-    ("C01-index-mode", "C01", "insns.py", "return 0o60 | register, SizedDeferred", "return 0o70 | register, SizedDeferred", 1),
-    ("C01-autodec-mode", "C01", "insns.py", "return 0o40 | register, b\"\"", "return 0o50 | register, b\"\"", 1),
+    ("C01-index-mode", "C01", "insns.py", "return mode_field(0o60, register), SizedDeferred", "return mode_field(0o70, register), SizedDeferred", 1),
+    ("C01-autodec-mode", "C01", "insns.py", "return mode_field(0o40, register), b\"\"", "return mode_field(0o50, register), b\"\"", 1),
     ("C01-imm-range", "C01", "insns.py", "max_value = 2 ** bitness - 1", "max_value = 2 ** bitness", 1),
     ("C04-rel-address", "C04", "insns.py", '"rel_address": state["emit_address"] + 2 + len(operands_encoding)', '"rel_address": state["emit_address"] + 2', 1),
     ("C04-max-offset", "C04", "insns.py", "max_offset = 0 if self.unsigned else 2 ** bitness - 2", "max_offset = 0 if self.unsigned else 2 ** bitness", 1),
